@@ -221,6 +221,9 @@ func (p *Plan) external(pkg *types.Package) bool { return pkg != nil && pkg != p
 
 // visibleField reports whether a struct member can be named from the home package.
 func (p *Plan) visibleField(container types.Type, f *types.Var) bool {
+	if f.Name() == "_" {
+		return false // a blank field can be neither read nor written
+	}
 	if f.Exported() {
 		return true
 	}
